@@ -229,13 +229,13 @@ pub const SHORT_RECORDS: &[&str] = &["MODULE a b c d", "FUNC 10 8 0 f", "10 8 1 
 pub fn family_b(records: &[&str], tag: &str) -> Vec<Inp> {
     let mut v = vec![];
     for eol in ["\n", "\r\n"] {
-        let build = |corrupt: Option<usize>| -> (Vec<u8>, Option<usize>) {
+        let build_with = |corrupt: Option<usize>, bad: &[u8]| -> (Vec<u8>, Option<usize>) {
             let mut d = vec![];
             let mut at = None;
             for (j, r) in records.iter().enumerate() {
                 if corrupt == Some(j) {
                     at = Some(d.len());
-                    d.extend_from_slice(b"BOGUS line here");
+                    d.extend_from_slice(bad);
                 } else {
                     d.extend_from_slice(r.as_bytes());
                 }
@@ -243,6 +243,7 @@ pub fn family_b(records: &[&str], tag: &str) -> Vec<Inp> {
             }
             (d, at)
         };
+        let build = |corrupt: Option<usize>| build_with(corrupt, b"BOGUS line here");
         let maxl = records.iter().map(|r| r.len()).max().unwrap() + eol.len();
         let e = if eol == "\n" { "LF" } else { "CRLF" };
         let (d, _) = build(None);
@@ -253,6 +254,11 @@ pub fn family_b(records: &[&str], tag: &str) -> Vec<Inp> {
         for j in 0..records.len() {
             let (d, at) = build(Some(j));
             v.push(Inp { label: format!("{tag} records {e}, line {j} corrupt"), data: d, corrupt_at: at, final_newline: true, max_line: maxl });
+            // a second MODULE record anywhere but on the first line is an error too, wherever a chunk boundary falls
+            if j >= 1 && records[0].starts_with("MODULE") {
+                let (d, at) = build_with(Some(j), b"MODULE a b c d2");
+                v.push(Inp { label: format!("{tag} records {e}, line {j} is a second MODULE record"), data: d, corrupt_at: at, final_newline: true, max_line: maxl });
+            }
         }
     }
     v
